@@ -1059,6 +1059,10 @@ def havoc_impl(interp, impl):
         interp.setattr(src, attr, ty.make(interp, 'src.' + attr))
     interp.setattr(impl, '_current_line', Opt(Inst(Line, _tuple=[Int, Str])).make(interp, 'current_line'))
     d = impl._section_name_2_element_list
+    if isinstance(d, dict) and not d:
+        # (the empty dictionary _Impl.__init__ creates: from here on a dictionary with symbolic key presence)
+        d = PDict(interp, interp.st.fresh_name('lists'), SECTION_NAMES, ELEMENTS)
+        interp.setattr(impl, '_section_name_2_element_list', d)
     interp.note_heap_write(d, None)
     d.havoc(interp, 'L')
     _any_section_state(interp, impl)
@@ -1288,17 +1292,17 @@ def _havoc_nothing(interp, obj):
 
 RAW_DOC = PDictOf(SECTION_NAMES, ELEMENTS)
 
-M.contract(P_DP + ':_parse_source', trusted=True, event='parse-source',
+M.contract(P_DP + ':_parse_source', event='parse-source',
            params=dict(conf=CONF, file_location_info=FILE_LOCATION_WITH_PATH, file_reference_relativity_root_dir=PATH,
                        source=PARSE_SOURCE, visited_paths=VISITED),
            ghosts=dict(orig=Str),
            requires=lambda source, orig: RI(source, orig) and off_of(source, orig) == 0 and has_line(source),
            modifies={'source': FORWARD},
            returns=RAW_DOC,
-           may_raise=(FileSourceError, FileAccessError, PARSER_EXCEPTION))
-M.assume('_parse_source = `_Impl(...).apply()`: used through an assumed contract at its (recursive) call site in '
-         'parse_file -- any dictionary of element lists over the section names, FileSourceError, FileAccessError or an '
-         'exception of a parser.  The mechanisms inside are proved of _Impl.apply and the functions below it.')
+           may_raise=(FileSourceError, FileAccessError, PARSER_EXCEPTION),
+           # (`_Impl(...)` then `apply()`: that the freshly constructed _Impl is in the state apply requires -- well
+           # formed, outside any section, no lists -- is the obligation `requires of _Impl.apply` here)
+           ensures={'a-dictionary-of-element-lists': lambda result: len(result) >= 0})
 
 M.contract(P_DP + ':parse_file', event='parse-file',      # (its calls are ghost events: checked in _include_files)
            params=dict(conf=CONF, file_reference_relativity_root_dir=PATH, file_location_info=FILE_LOCATION_WITH_PATH,
@@ -1543,7 +1547,7 @@ M.contract(P_IMPL + '.apply', params=dict(self=IMPL), ghosts=dict(orig=Str),
                              self._current_line is not None and is_header(self._current_line.text),
                              self.configuration.default_section_name, _rest_of_impl(self)),
            modifies={'self': IMPL_STATE},
-           returns=RAW_DOC,
+           returns=lambda interp, bound: bound['self']._section_name_2_element_list,
            raises={FileSourceError: {'shape': FILE_SOURCE_ERROR, 'ensures': (lambda self, orig, old, exc, trace:
                    # an error from further down; or: no header first, no default section, and after the comments
                    # and blank lines there is something that is not a header
@@ -1634,3 +1638,14 @@ M.contract(P_ACT + ':_un_escape', params=dict(s=Str), returns=Str, pure_result=T
                'no-newline-appears': lambda s, result: (NL in s) or (NL not in result),
            }, raises_only=())
 
+
+
+# ---- the document object; _parse_source
+
+M.contract(P_DP + ':build_document', params=dict(raw_doc=RAW_DOC3),
+           ensures={
+               'same-sections-in-the-same-order': lambda raw_doc, result:
+               list(result.section_2_elements.keys()) == list(raw_doc.keys()),
+               'same-elements-in-the-same-order': lambda raw_doc, result:
+               all(same_items(result.section_2_elements[k].elements, raw_doc[k]) for k in raw_doc.keys()),
+           }, raises_only=())
